@@ -905,8 +905,13 @@ def abs_square_operand(t):
         parts = []
         for side in (t.args[1], t.args[2]):
             sd = strip_views(side)
-            if sd.op == 'binop' and sd.args[0] == 'Pow' and const_val(sd.args[2]) == 2 and strip_views(sd.args[1]).op == 'attr' and strip_views(sd.args[1]).args[1] in ('real', 'imag'):
-                parts.append((strip_views(sd.args[1]).args[1], strip_views(strip_views(sd.args[1]).args[0])))
+            sq = None
+            if sd.op == 'binop' and sd.args[0] == 'Pow' and const_val(sd.args[2]) == 2:
+                sq = strip_views(sd.args[1])
+            elif sd.op == 'binop' and sd.args[0] == 'Mult' and (strip_views(sd.args[1]) is strip_views(sd.args[2]) or struct_eq(strip_views(sd.args[1]), strip_views(sd.args[2]))):
+                sq = strip_views(sd.args[1])          # re * re
+            if sq is not None and sq.op == 'attr' and sq.args[1] in ('real', 'imag'):
+                parts.append((sq.args[1], strip_views(sq.args[0])))
         if len(parts) == 2 and {parts[0][0], parts[1][0]} == {'real', 'imag'} and (parts[0][1] is parts[1][1] or struct_eq(parts[0][1], parts[1][1])):
             return parts[0][1]
     return None
